@@ -15,10 +15,12 @@
      correspondence shards execute), arithmetic with the field identities `ExactField`.
    - Section RealClosedField: the same with every hypothesis discharged, for every real closed field
      (MathComp `rcfType`; `realalg` is a constructed instance, so the hypotheses are satisfiable).
+   - Section SpecialValues: any arithmetic with IEEE-like NaN / infinities (`SpecialLaws`), rounding allowed:
+     no NaN / Inf in a returned factor.
    Examples at the end instantiate the hypotheses on concrete inputs (arithmetic on Z). *)
 From Coq Require Import List Bool Arith ZArith Lia.
 Import ListNotations.
-Require Import C16.Model C16.ProofsLoop C16.ProofsMain C16.ProofsKernel C16.ProofsSpec C16.ProofsClosed.
+Require Import C16.Model C16.ProofsLoop C16.ProofsMain C16.ProofsKernel C16.ProofsSpec C16.ProofsClosed C16.ProofsFinite.
 
 Section AnyArithmetic.
 Variable F : Type.
@@ -90,6 +92,14 @@ Theorem C16_max_tries_zero_refuted st d32 dt n A upper jitter max_tries :
   eff_tries F st max_tries = 0 ->
   psc ar chol_ex st d32 dt n A upper jitter max_tries = (ErrUnbound, A).
 Proof. exact (psc_no_tries F ar chol_ex st d32 dt n A upper jitter max_tries). Qed.
+
+(* the operator route DenseLinearOperator(A).cholesky(upper), n <> 1 (n = 1 is the documented sqrt(clamp_min(a, 0))
+   shortcut), is psd_safe_cholesky(A, upper) with jitter / max_tries from the settings: every theorem about `psc`
+   with `None None` applies to it *)
+Theorem C16_operator_route st d32 dt n A upper : n <> 1 ->
+  (fst (op_cholesky ar chol_ex st d32 dt n A upper), rd (snd (op_cholesky ar chol_ex st d32 dt n A upper)) 0)
+  = psc ar chol_ex st d32 dt n A upper None None.
+Proof. exact (op_cholesky_route F ar chol_ex st d32 dt n A upper). Qed.
 
 End AnyArithmetic.
 
@@ -273,11 +283,47 @@ Theorem C16_rcf_not_psd st d32 dt n (A : list (matrix T)) upper jitter max_tries
   = (ErrNotPSD (map (J T arR j) (seq 0 (S t'))) (J T arR j t'), A).
 Proof. exact (psc_kernel_not_psd T arR (ArRcf_field R) (ArRcf_round R) st d32 dt n A upper jitter max_tries t' M). Qed.
 
+(* the kernel's guarantee in MathComp matrix form: for a symmetric n x n input, L *m L^T = M in 'M[R]_n *)
+Theorem C16_rcf_factor_is_matrix_root n (M L : matrix T) :
+  chol_spec T arR n M L -> sym T arR n M ->
+  is_matrix_root R n L M.       (* := mx_of n L *m (mx_of n L)^T = mx_of n M   (ProofsClosed.v) *)
+Proof. exact (chol_spec_mx R n M L). Qed.
+
 End RealClosedField.
 
 (* a real closed field exists (constructed: the real algebraic numbers), so Section RealClosedField is not vacuous *)
 Example C16_rcf_inhabited : rcf.
 Proof. exact realalg_rcf. Qed.
+
+Section SpecialValues.
+(* ANY arithmetic (rounding allowed) whose NaN / infinities follow the IEEE rules `SpecialLaws`:
+   afin = "is finite", astuck = "is NaN or -infinity" *)
+Variable F : Type.
+Variable ar : Arith F.
+Variables afin astuck : F -> bool.
+Hypothesis SL : SpecialLaws F ar afin astuck.
+
+(* cholesky_ex (the kernel) never produces NaN / Inf from a finite matrix: an accepted pivot d > 0 certifies that
+   its whole row is finite *)
+Theorem C16_kernel_finite (M : matrix F) :
+  allfin F afin M = true -> allfin F afin (fst (chol_kernel ar M)) = true.
+Proof. exact (kernel_finite F ar afin astuck SL M). Qed.
+
+(* a normal return of psd_safe_cholesky contains no NaN / Inf provided the working copy stayed finite (finite
+   input, no overflow when the jitter was added) *)
+Theorem C16_no_nan_inf st d32 dt n A jitter max_tries L w A' :
+  trace_on st = false ->
+  psc ar (chol_kernel ar) st d32 dt n A false jitter max_tries = (Ok L w, A') ->
+  (forall i, i <= eff_tries F st max_tries ->
+     forallb (allfin F afin) (traj F ar (chol_kernel ar) d32 (eff_jitter F st dt jitter) A i) = true) ->
+  forallb (allfin F afin) L = true.
+Proof. exact (psc_no_nan_inf F ar afin astuck SL st d32 dt n A jitter max_tries L w A'). Qed.
+
+End SpecialValues.
+
+(* `SpecialLaws` is satisfiable: Z extended by NaN, +infinity, -infinity with the IEEE rules *)
+Example C16_special_laws_inhabited : SpecialLaws xz ArXZ xfin xstuck.
+Proof. exact ArXZ_special. Qed.
 
 (* ------------------------------------------------------------------ Examples: the hypotheses are satisfiable.
    Arithmetic on Z (`ArZ`, satisfies `ExactArith`: ArZ_exact); the factorisation primitive is the kernel run
